@@ -45,6 +45,22 @@ static void record_chain(void)
 	}
 }
 
+/* jansson's serialiser and parser entry points are wrapped (the driver's definitions win over the shared library's): when a result
+ * differs, the monitor has to know whether jansson *reported* the failed allocation to libjwt (which then ignored it: libjwt's
+ * defect) or swallowed it itself (jansson's, on file as known findings) */
+#include <jansson.h>
+static const char *jfail;	/* first wrapped entry point that returned failure during the current run */
+#define JREAL(name) static __typeof__(&name) real; if (!real) real = (__typeof__(&name))dlsym(RTLD_NEXT, #name)
+#define JNOTE(cond, name) do { if (inject_on && (cond) && !jfail) jfail = name; } while (0)
+char *json_dumps(const json_t *j, size_t fl) { JREAL(json_dumps); char *r = real(j, fl); JNOTE(!r, "json_dumps"); return r; }
+size_t json_dumpb(const json_t *j, char *b, size_t n, size_t fl) { JREAL(json_dumpb); size_t r = real(j, b, n, fl); JNOTE(!r, "json_dumpb"); return r; }
+int json_dump_callback(const json_t *j, json_dump_callback_t cb, void *d, size_t fl) { JREAL(json_dump_callback); int r = real(j, cb, d, fl); JNOTE(r != 0, "json_dump_callback"); return r; }
+json_t *json_loads(const char *s, size_t fl, json_error_t *e) { JREAL(json_loads); json_t *r = real(s, fl, e); JNOTE(!r, "json_loads"); return r; }
+json_t *json_loadb(const char *s, size_t n, size_t fl, json_error_t *e) { JREAL(json_loadb); json_t *r = real(s, n, fl, e); JNOTE(!r, "json_loadb"); return r; }
+json_t *json_loadf(FILE *f, size_t fl, json_error_t *e) { JREAL(json_loadf); json_t *r = real(f, fl, e); JNOTE(!r, "json_loadf"); return r; }
+json_t *json_load_file(const char *p, size_t fl, json_error_t *e) { JREAL(json_load_file); json_t *r = real(p, fl, e); JNOTE(!r, "json_load_file"); return r; }
+json_t *json_deep_copy(const json_t *j) { JREAL(json_deep_copy); json_t *r = real(j); JNOTE(j && !r, "json_deep_copy"); return r; }
+
 /* every block handed to the application's free function must have come from the application's malloc function (a pool or
  * accounting allocator installed through jwt_set_alloc is corrupted otherwise): live blocks are tracked in a hash set */
 #define PT_SIZE (1u << 18)
@@ -259,6 +275,14 @@ static char *gen_token(const scen_t *s, res_t *r)
 		jwt_set_SET_STR(&v, "kid", "key-1"); CFG(jwt_builder_header_set(b, &v));
 		jwt_set_SET_JSON(&v, "roles", "[\"a\",\"b\"]"); CFG(jwt_builder_claim_set(b, &v));
 	}
+	if (s->variant >= 5) {
+		/* claims / headers whose JSON text exceeds 4 KiB and 16 KiB (larger than any buffer a serialiser would keep on the stack) */
+		static char bigv[20001];
+		size_t n = s->variant == 5 ? 5000 : s->variant == 6 ? 20000 : 4200;
+		memset(bigv, 'x', n); bigv[n] = 0;
+		jwt_set_SET_STR(&v, "data", bigv);
+		if (s->variant == 7) CFG(jwt_builder_header_set(b, &v)); else CFG(jwt_builder_claim_set(b, &v));
+	}
 	if (s->variant == 3) CFG(jwt_builder_setcb(b, cfg_cb, NULL));
 	if (s->variant == 4) { cb_res = r; CFG(jwt_builder_setcb(b, jwtt_cb, NULL)); }
 	tok = jwt_builder_generate(b);
@@ -275,10 +299,11 @@ static void scen_gen(const scen_t *s, res_t *r)
 }
 
 static char *VTOK[NKEY + 1][5];	/* per key: valid, bad-signature, expired, wrong-iss ; [NKEY]: alg none token */
+static char *VBIG[2];	/* valid HS256 (key 0) and alg-none tokens with a 6000-character claim */
 static void scen_verify(const scen_t *s, res_t *r)
 {
 	jwt_checker_t *c = jwt_checker_new();
-	const char *tok = VTOK[s->key >= 0 ? s->key : NKEY][s->variant % 5];
+	const char *tok = s->variant >= 5 ? VBIG[s->key >= 0 ? 0 : 1] : VTOK[s->key >= 0 ? s->key : NKEY][s->variant % 5];
 	if (!c) { r->reported = 1; r->rc = 1; return; }
 	r->rc = 1;
 	if (s->key >= 0) CFG(jwt_checker_setkey(c, (jwt_alg_t)KALG[s->key], FPUB[s->prov][s->key]));
@@ -348,6 +373,15 @@ int main(int argc, char **argv)
 		VTOK[k][3] = vh_ref_token(&K[k], KALG[k], hdr, "{\"iss\":\"you\",\"exp\":1700009999}");
 		VTOK[k][4] = vh_ref_token(NULL, JWT_ALG_NONE, "{\"alg\":\"none\"}", "{\"iss\":\"me\"}");	/* none-with-key */
 	}
+	{
+		char *pl = malloc(6100), hdr[64];
+		int o = sprintf(pl, "{\"a\":\"");
+		memset(pl + o, 'x', 6000); strcpy(pl + o + 6000, "\",\"iss\":\"me\",\"exp\":1700009999}");
+		snprintf(hdr, sizeof(hdr), "{\"alg\":\"%s\",\"typ\":\"JWT\"}", vh_alg_name(KALG[0]));
+		VBIG[0] = vh_ref_token(&K[0], KALG[0], hdr, pl);
+		VBIG[1] = vh_ref_token(NULL, JWT_ALG_NONE, "{\"alg\":\"none\"}", pl);
+		free(pl);
+	}
 	for (int v = 0; v < 5; v++) VTOK[NKEY][v] = vh_ref_token(NULL, JWT_ALG_NONE, "{\"alg\":\"none\"}", v == 3 ? "{\"iss\":\"you\"}" : v == 2 ? "{\"iss\":\"me\",\"exp\":1}" : "{\"iss\":\"me\"}");
 
 	/* scenario table */
@@ -365,6 +399,12 @@ int main(int argc, char **argv)
 		add_scen("load:fromfile:rsa", T_LOAD, 0, 1, 4);
 		add_scen("generate:HS256:jwt_t-api-in-callback:p0", T_GEN, 0, 0, 4);
 		add_scen("generate:ES256:jwt_t-api-in-callback:p1", T_GEN, 1, 2, 4);
+		add_scen("generate:HS256:5000-char-claim:p0", T_GEN, 0, 0, 5);
+		add_scen("generate:none:5000-char-claim:p1", T_GEN, 1, -1, 5);
+		add_scen("generate:HS256:20000-char-claim:p1", T_GEN, 1, 0, 6);
+		add_scen("generate:none:4200-char-header:p0", T_GEN, 0, -1, 7);
+		add_scen("verify:HS256:6000-char-claim:p0", T_VERIFY, 0, 0, 5);
+		add_scen("verify:none:6000-char-claim:p1", T_VERIFY, 1, -1, 5);
 		add_scen("config:builder", T_CONFIG, 0, 0, 0);
 		add_scen("config:checker", T_CONFIG, 0, 0, 1);
 		for (int p = 0; p < 2; p++) {
@@ -406,7 +446,7 @@ int main(int argc, char **argv)
 			const char *outcome = "same";
 			if (!vh_mine(&a, idx)) continue;
 			vh_case_begin(idx, "\"scenario\":\"%s\",\"k\":%ld,\"n\":%ld", s->name, k, n);
-			fail_chain[0] = 0;
+			fail_chain[0] = 0; jfail = NULL;
 			inject_on = 1; alloc_count = 0; fail_at = k;
 			run_scenario(s, &got);
 			inject_on = 0;
@@ -428,6 +468,9 @@ int main(int argc, char **argv)
 				}
 				else outcome = "TOKEN-DIFFERS";
 			} else if (strcmp(got.text, base.text)) outcome = s->kind == T_LOAD ? "LOAD-RESULT-DIFFERS" : "CONFIG-RESULT-DIFFERS";
+			/* a differing result although jansson told libjwt about the failure */
+			if (jfail && outcome[0] >= 'A' && outcome[0] <= 'Z') printf("[\"F\",%d,%ld,\"%s\",\"failure-reported-by:%s|%s\"", si, k, outcome, jfail, fail_chain);
+			else
 			printf("[\"F\",%d,%ld,\"%s\",\"%s\"", si, k, outcome, fail_chain);
 			if (outcome[0] >= 'A' && outcome[0] <= 'Z') { printf(","); { char t[400]; snprintf(t, sizeof(t), "%.380s", got.text); vh_put_jstr(stdout, t); } printf(","); { char t[400]; snprintf(t, sizeof(t), "%.380s", base.text); vh_put_jstr(stdout, t); } }
 			printf("]\n");
